@@ -211,7 +211,7 @@ fn threads(a: &[String]) {
         let f = &reg.families[fam];
         f.variants.iter().map(|v| v.both).find(|&t| !reg.types[t].detect).unwrap_or(f.variants[0].both)
     };
-    let mut expect = |fam: usize, key: &[u8], dir: Dir, data: &[u8]| -> Vec<u8> {
+    let expect = |fam: usize, key: &[u8], dir: Dir, data: &[u8]| -> Vec<u8> {
         let t = &reg.types[model_ty(fam)];
         fresh_perblock_raw(t, scratch_ptr, key, false, dir, data).unwrap_or_else(|e| die(&format!("model failed: {}", e)))
     };
@@ -538,7 +538,7 @@ fn threads(a: &[String]) {
             }
         }
     }
-    drop(expect);
+    let _ = &expect;
     // the recorded history: merged invoke order; every response must equal the sequential model
     let mut d = Digest::default();
     let mut overlaps = 0u64;
@@ -666,7 +666,7 @@ fn c16(names: &[String]) {
             for (label, r) in &routes {
                 for used in [false, true] {
                     // build at `p` by this route from `key`; returns false if the route does not apply
-                    let mut build = |slots: &mut sim::mem::Slots, p: *mut u8, key: &[u8]| -> bool {
+                    let build = |slots: &mut sim::mem::Slots, p: *mut u8, key: &[u8]| -> bool {
                         unsafe {
                             match *r {
                                 R::New => (t.new_from_slice)(p, key),
